@@ -261,13 +261,14 @@ func (im *impl) genExponent(h *vh.H, huge bool, withEnv bool) string {
 	}
 	type tpl struct{ root, doc, qkey string }
 	tpls := []tpl{
-		{"g0.v1.All", `{"sDecimal":` + v + `}`, "sDecimal"},
-		{"g0.v1.All", `{"rDecimal":["1.5",` + v + `]}`, ""},
-		{"g0.v1.All", `{"mDecimal":{"k":` + v + `}}`, ""},
+		{"g0.v1.All", `{"sDec":` + v + `}`, "sDec"},
+		{"g0.v1.All", `{"rDec":["1.5",` + v + `]}`, ""},
+		{"g0.v1.All", `{"mDec":{"k":` + v + `}}`, ""},
 		{"g0.v1.All", `{"sDouble":` + v + `}`, "sDouble"},
 		{"g0.v1.All", `{"sFloat":` + v + `}`, "sFloat"},
 		{"g0.v1.All", `{"rDouble":[` + v + `]}`, ""},
 		{"test.schema.v1.FullSchema", `{"decimal":` + v + `}`, "decimal"},
+		{"test.schema.v1.FullSchema", `{"rDecimal":[1.1,` + v + `]}`, ""},
 		{"test.schema.v1.FullSchema", `{"sFloat":` + v + `}`, "sFloat"},
 	}
 	t := tpls[h.Rng.IntN(len(tpls))]
